@@ -60,6 +60,22 @@ pub fn gen_stream(rng: &mut Rng, n: usize, thorough: bool) -> Vec<Case> {
         let (b, what) = corrupt_pub(rng, &fc);
         out.push((format!("stream any - {} {}", opss, hex(&b)), format!("clean=0|corrupt={}", what)));
     }
+    // header-only files of both classes, with 0..12 trailing bytes (the smallest files either parser can open)
+    for is64 in [false, true] {
+        for le in [false, true] {
+            for extra in 0..13usize {
+                let mut o = crate::elfbuild::Obj::new(is64, le);
+                o.trailing = rng.bytes(extra);
+                let built = o.build(&[]);
+                out.push((format!("stream any - T,Y,D,d,V0,S0,P0 {}", hex(&built.bytes)), "clean=1|header-only".into()));
+                if extra % 4 == 0 {
+                    let sl = rng.range(3, 12) as usize;
+                    let sched = legal_sched(rng, sl);
+                    out.push((format!("stream any {} T,d,S0 {}", sched, hex(&built.bytes)), "clean=1|legal|header-only".into()));
+                }
+            }
+        }
+    }
     // headers claiming huge sizes in small files (C08)
     for _ in 0..(n / 3 + 3) {
         let fc = rand_object(rng, true);
